@@ -117,6 +117,23 @@ def _selfcheck_enumeration():
     return bad
 
 
+def boundary_programs():
+    """C14's variable-count templates on both sides of the one-byte operand limit: whether such a program runs or is refused
+    must not depend on the order in which a set of names happens to be iterated."""
+    from mc.props import c14
+    out = []
+    for t in ("locals_sum", "captured_sum", "captured_bump", "captured_deep", "params_sum", "globals_sum", "cellvars_owner", "locals", "captured"):
+        for n in (254, 255, 256, 257, 258, 300):
+            out.append(c14.gen(t, n)[0])
+    # many variables of which only a few are used (the unused ones may land on slots beyond the limit)
+    for n in (257, 300, 400):
+        names = ["a%d" % i for i in range(n)]
+        out.append("function f() { var %s; a0 = 5; a1 = 6; return a0 + a1 } f()" % ", ".join(names))
+        out.append("function f() { var %s; a0 = 5; return function () { return a0 + a%d } } typeof f()()" % (", ".join(names), n - 1))
+        out.append("function f(%s) { return a0 } f(7)" % ", ".join(names[:255]) + "; function g() { var %s; return 1 } g()" % ", ".join(names))
+    return out
+
+
 def corpus_files():
     """The repository's own .js test files and README snippets (the `corpus scripts` of the property), as collected by C13."""
     from mc.props import c13
@@ -134,7 +151,7 @@ def corpus_programs():
 
 def all_programs():
     seen, out = set(), []
-    for p in wide_programs() + enumeration_programs() + corpus_files() + corpus_programs():
+    for p in wide_programs() + enumeration_programs() + boundary_programs() + corpus_files() + corpus_programs():
         if p not in seen:
             seen.add(p)
             out.append(p)
